@@ -14,7 +14,8 @@ NOT_APPLICABLE_REASON = {}   # property -> reason, for properties without a chec
 
 def main():
     props = [json.loads(l) for l in open(os.path.join(HERE, 'properties.jsonl'))]
-    have = set(checks.all_ids())
+    released = set(open(os.path.join(HERE, 'omv', 'checks', 'RELEASED')).read().split())
+    have = set(checks.all_ids()) & released
     out_checks = []
     na = []
     for p in props:
